@@ -458,14 +458,22 @@ package iscp
 //@   ensures result >= 0
 //@   loop 1 invariant size >= 0
 
-// closeWithError is called by flush with u.mu held when the counters would overflow. Its call
-// tree goes through application callbacks and the wire layer; the frame below (it does not touch
-// the send buffer, its counters, the result-channel table or the sequence generator) is ASSUMED,
-// not proved - it is listed as a trusted contract in the evidence.
+// closeWithError is called by flush with u.mu held when the counters would overflow, and by Close
+// and resume without it. Its call tree goes through application callbacks and the wire layer; the
+// frame (it does not touch the send buffer, its counters, the result-channel table or the
+// sequence generator) is ASSUMED at its call sites, not proved (`trustedensures`, listed in the
+// evidence). What IS proved about its body: the close request names this stream and carries the
+// running totals read at that moment (C01), the stream's context is cancelled on every path
+// (C10: after Close has returned the stream is closed whatever the broker answered), and it
+// touches no lock-guarded state without the lock (C09 sweep).
 //@ func (*Upstream).closeWithError
-//@   trusted
-//@   ensures unchanged(u.sendBuffer) && len(u.sendBuffer) == old(len(u.sendBuffer)) && unchanged(u.upstreamChunkResultChs) && unchanged(u.sendBufferDataPointsCount) && unchanged(u.sendBufferPayloadSize)
-//@   ensures unchanged(u.sequence) && unchanged(u.sequence.Current) && unchanged(u.totalDataPoints)
+//@   props C01 C10 C05
+//@   trustedensures unchanged(u.sendBuffer) && len(u.sendBuffer) == old(len(u.sendBuffer)) && unchanged(u.upstreamChunkResultChs) && unchanged(u.sendBufferDataPointsCount) && unchanged(u.sendBufferPayloadSize)
+//@   trustedensures unchanged(u.sequence) && unchanged(u.sequence.Current) && unchanged(u.totalDataPoints)
+//@   ghostvar cancelled bool = false
+//@   after call dynamic field cancel: cancelled = true
+//@   assert[C01] call SendUpstreamCloseRequest: arg2 != nil && arg2.StreamID == u.ID && arg2.TotalDataPoints == u.totalDataPoints && arg2.FinalSequenceNumber == u.sequence.Current
+//@   ensures[C10,C05] cancelled
 
 // State snapshot: totals and sequence number are the current ones, one buffered group per
 // buffered data id (never more groups than the buffer holds: nothing is invented).
